@@ -147,6 +147,9 @@ def _bind(env, target, value):
             env[target.id] = _Subst(env).visit(copy.deepcopy(value))
 
 
+_SELF_METHODS = {}
+
+
 def _avail_fact(test, pol, env):
     """the canonical X of a fact `available bytes >= X` that (test == pol) establishes, else None"""
     if not (isinstance(test, ast.Compare) and len(test.ops) == 1):
@@ -155,6 +158,11 @@ def _avail_fact(test, pol, env):
 
     def is_avail(e):
         e2 = _Subst(env).visit(copy.deepcopy(e))
+        # `self._buffered_count()`: a zero-argument method that returns an expression stands for it
+        if isinstance(e2, ast.Call) and not e2.args and isinstance(e2.func, ast.Attribute) and isinstance(e2.func.value, ast.Name) and e2.func.value.id == "self":
+            m = _SELF_METHODS.get(e2.func.attr)
+            if m is not None and len(m.body) >= 1 and isinstance(m.body[-1], ast.Return) and m.body[-1].value is not None and all(isinstance(x, ast.Expr) and isinstance(x.value, ast.Constant) for x in m.body[:-1]):
+                e2 = m.body[-1].value
         return (isinstance(e2, ast.BinOp) and isinstance(e2.op, ast.Sub) and _is_self_attr(e2.left, "_last_read_count") and _is_self_attr(e2.right, "_offset")) or \
                (isinstance(e2, ast.BinOp) and isinstance(e2.op, ast.Sub) and isinstance(e2.left, ast.Call) and isinstance(e2.left.func, ast.Name) and e2.left.func.id == "len"
                 and e2.left.args and _is_self_attr(e2.left.args[0], "_buffer") and _is_self_attr(e2.right, "_offset"))
@@ -174,7 +182,7 @@ def rule_py_extents_agree(out, pyr):
     rid = "PX1"
     out.rule(rid, "_binary.py CodedOutputStream / CodedInputStream: on every path of every method, the number of bytes stored or read at `self._offset`, the number the method "
                   "made sure of just before (capacity / availability test, `_fill_buffer(n)`) and the number `self._offset` is advanced by are the same quantity "
-                  "(explaining locals followed, a re-assigned variable is a different quantity)", 8)
+                  "(explaining locals followed, a re-assigned variable is a different quantity)", 5)
     tree, rel = pyr.parse_py(out, "_binary.py")
     cls = pyr.classes(tree)
     for cname, reader in (("CodedOutputStream", False), ("CodedInputStream", True)):
@@ -182,8 +190,45 @@ def rule_py_extents_agree(out, pyr):
         if c is None:
             out.undecided(rid, "anchor/" + cname, rel, "class not found")
             continue
+        _SELF_METHODS.clear()
+        _SELF_METHODS.update(pyr.methods(c))
+        # ensure-helpers: methods `m(self, n)` after which `n` bytes are known to be available on every returning path
+        # (`if avail < n: self._fill_buffer(n)`), e.g. a `_require(n)` factored out of the scalar reads
+        ensure_helpers = set()
+        if reader:
+            for mname, fn in pyr.methods(c).items():
+                ps = [a.arg for a in fn.args.args if a.arg != "self"]
+                if len(ps) != 1 or mname == "_fill_buffer":
+                    continue
+                good, any_path = True, False
+                for items, oc in MiniPaths().paths(fn.body):
+                    if oc == "raise":
+                        continue
+                    any_path = True
+                    env, avail = {}, None
+                    for it in items:
+                        if it[0] == "guard":
+                            if it[1] is not None:
+                                f = _avail_fact(it[1], it[2], env)
+                                if f is not None:
+                                    avail = f
+                            continue
+                        st = it[1]
+                        for n in ast.walk(st):
+                            if isinstance(n, ast.Call) and isinstance(n.func, ast.Attribute) and n.func.attr == "_fill_buffer" and isinstance(n.func.value, ast.Name) and n.func.value.id == "self":
+                                avail = canon(n.args[0], env) if n.args else "0"
+                            if isinstance(n, ast.Subscript) and _buffer_like(n.value):
+                                good = False  # it reads: not a pure ensure-helper
+                        if isinstance(st, ast.AugAssign) and _is_self_attr(st.target, "_offset"):
+                            good = False
+                        if isinstance(st, ast.Assign) and len(st.targets) == 1 and isinstance(st.targets[0], ast.Name):
+                            _bind(env, st.targets[0], st.value)
+                    if avail != ps[0]:
+                        good = False
+                if good and any_path:
+                    ensure_helpers.add(mname)
         for mname, fn in pyr.methods(c).items():
-            if mname in ("__init__", "_fill_buffer"):
+            if mname in ("__init__", "_fill_buffer") or mname in ensure_helpers:
                 continue  # _fill_buffer is the routine that establishes the fact
             mp = MiniPaths()
             sites = {}  # key -> (ok, pos, fact)
@@ -242,6 +287,8 @@ def rule_py_extents_agree(out, pyr):
                     for n in ast.walk(st):
                         if isinstance(n, ast.Call) and isinstance(n.func, ast.Attribute) and n.func.attr == "_fill_buffer" and isinstance(n.func.value, ast.Name) and n.func.value.id == "self":
                             avail = canon(n.args[0], env) if n.args else "0"
+                        if isinstance(n, ast.Call) and isinstance(n.func, ast.Attribute) and n.func.attr in ensure_helpers and isinstance(n.func.value, ast.Name) and n.func.value.id == "self" and n.args:
+                            avail = canon(n.args[0], env)
                     if isinstance(st, ast.Assign) and len(st.targets) == 1:
                         tg = st.targets[0]
                         if isinstance(tg, ast.Subscript) and _is_self_attr(tg.value, "_buffer") and not reader:
